@@ -21,12 +21,19 @@ import (
 	"sort"
 	"strconv"
 	"strings"
+	"sync"
 	"testing"
 	"time"
+
+	"github.com/megaease/easegress/pkg/object/serviceregistry"
+	"github.com/megaease/easegress/pkg/supervisor"
 
 )
 
 type c03Adapt struct {
+	// Path (RequestAdaptor only): a path rule that leaves every generated path as it is:
+	// "trim" = trimPrefix of a prefix no path has, "regexp" = regexpReplace that never matches
+	Path       string `json:"path"`
 	On         bool   `json:"on"`
 	Body       string `json:"body"`
 	Compress   bool   `json:"compress"`
@@ -117,6 +124,7 @@ type c03In struct {
 	CutAt    int         `json:"cutAt"` //
 
 	CStream  bool     `json:"cstream"`  // clientMaxBodySize -1
+	Discover  bool    `json:"discover"`  // the pool's server comes from a service registry (no static servers, no keepHost)
 	FailCodes []int   `json:"failCodes"` // pool failureCodes
 	Retry     bool    `json:"retry"`     // pool retryPolicy (2 attempts, 1ms)
 	CNeg     int64    `json:"cneg"`     // the negative clientMaxBodySize used when CStream (0 = -1)
@@ -398,6 +406,14 @@ func c03PipelineYAMLFull(in *c03In, addr, mirrorAddr string, mc *c03Cache, ed *c
 		if a.Decompress {
 			w.WriteString("  decompress: gzip\n")
 		}
+		if kind == "RequestAdaptor" {
+			switch a.Path {
+			case "trim":
+				w.WriteString("  path:\n    trimPrefix: /no-such-prefix-zz\n")
+			case "regexp":
+				w.WriteString("  path:\n    regexpReplace:\n      regexp: \"^/never-matches-zz$\"\n      replace: /replaced\n")
+			}
+		}
 		if kind == "ResponseAdaptor" && ed != nil && len(ed.Del)+len(ed.Set)+len(ed.Add) > 0 {
 			w.WriteString("  header:\n")
 			if len(ed.Del) > 0 {
@@ -451,8 +467,12 @@ func c03PipelineYAMLFull(in *c03In, addr, mirrorAddr string, mc *c03Cache, ed *c
 		}
 		w.WriteString("    ")
 	}
-	w.WriteString("servers:\n")
-	for k := 0; k < 1 || (in.Twice && k < 2); k++ {
+	if in.Discover {
+		w.WriteString("serviceRegistry: c03reg\n    serviceName: c03svc\n    serverTags: [v1]\n")
+	} else {
+		w.WriteString("servers:\n")
+	}
+	for k := 0; !in.Discover && (k < 1 || (in.Twice && k < 2)); k++ {
 		fmt.Fprintf(&w, "    - url: http://%s:%s\n      keepHost: %v\n", in.SrvHost, port, in.KeepHost)
 		if in.Weight > 0 {
 			fmt.Fprintf(&w, "      weight: %d\n", in.Weight)
@@ -576,9 +596,81 @@ func c03Run(in c03In) (obs c03Obs) {
 		defer mb.Close()
 		mirrorAddr = mb.Addr()
 	}
-	fr := c07StartFront(c07ServerYAML(c03ClientMax(&in), 0), c03PipelineYAMLFull(&in, be.Addr(), mirrorAddr, nil, nil))
+	var super *supervisor.Supervisor
+	if in.Discover {
+		_, port, _ := net.SplitHostPort(be.Addr())
+		pn, _ := strconv.Atoi(port)
+		super = c03DiscoverySuper(in.SrvHost, pn, in.Twice, in.Weight)
+	}
+	fr := c07StartFrontSuper(c07ServerYAML(c03ClientMax(&in), 0), c03PipelineYAMLFull(&in, be.Addr(), mirrorAddr, nil, nil), super)
 	defer fr.Close()
 	return c03Serve(fr, be, &in)
+}
+
+// c03Registry is a service registry with a fixed set of instances.
+type c03Registry struct {
+	inst map[string]*serviceregistry.ServiceInstanceSpec
+	ch   chan *serviceregistry.RegistryEvent
+}
+
+func (g *c03Registry) Name() string                                   { return "c03reg" }
+func (g *c03Registry) Notify() <-chan *serviceregistry.RegistryEvent { return g.ch }
+func (g *c03Registry) ApplyServiceInstances(map[string]*serviceregistry.ServiceInstanceSpec) error {
+	return nil
+}
+func (g *c03Registry) DeleteServiceInstances(map[string]*serviceregistry.ServiceInstanceSpec) error {
+	return nil
+}
+func (g *c03Registry) GetServiceInstance(serviceName, instanceID string) (*serviceregistry.ServiceInstanceSpec, error) {
+	for _, i := range g.inst {
+		if i.ServiceName == serviceName && i.InstanceID == instanceID {
+			return i, nil
+		}
+	}
+	return nil, fmt.Errorf("not found")
+}
+func (g *c03Registry) ListServiceInstances(serviceName string) (map[string]*serviceregistry.ServiceInstanceSpec, error) {
+	out := map[string]*serviceregistry.ServiceInstanceSpec{}
+	for k, i := range g.inst {
+		if i.ServiceName == serviceName {
+			out[k] = i
+		}
+	}
+	return out, nil
+}
+func (g *c03Registry) ListAllServiceInstances() (map[string]*serviceregistry.ServiceInstanceSpec, error) {
+	return g.inst, nil
+}
+
+// c03DiscoverySuper: a supervisor whose ServiceRegistry system controller knows one
+// instance of service c03svc at host:port.
+func c03DiscoverySuper(host string, port int, twice bool, weight int) *supervisor.Supervisor {
+	boot := supervisor.NewDefaultMock()
+	spec, err := boot.NewSpec("kind: ServiceRegistry\nname: ServiceRegistry\nsyncInterval: 10s\n")
+	if err != nil {
+		panic(err)
+	}
+	ent, err := boot.NewObjectEntityFromSpec(spec)
+	if err != nil {
+		panic(err)
+	}
+	ent.InitWithRecovery(nil)
+	reg := &c03Registry{inst: map[string]*serviceregistry.ServiceInstanceSpec{}, ch: make(chan *serviceregistry.RegistryEvent)}
+	n := 1
+	if twice {
+		n = 2
+	}
+	for k := 0; k < n; k++ {
+		id := fmt.Sprintf("i%d", k)
+		reg.inst["c03reg/c03svc/"+id] = &serviceregistry.ServiceInstanceSpec{RegistryName: "c03reg", ServiceName: "c03svc", InstanceID: id,
+			Address: host, Port: uint16(port), Tags: []string{"v1"}, Weight: weight}
+	}
+	if err := ent.Instance().(*serviceregistry.ServiceRegistry).RegisterRegistry(reg); err != nil {
+		panic(err)
+	}
+	var sys sync.Map
+	sys.Store(serviceregistry.Kind, ent)
+	return supervisor.NewMock(nil, nil, sync.Map{}, sys, nil, nil, false, nil, nil)
 }
 
 func c03ClientMax(in *c03In) int64 {
@@ -621,7 +713,8 @@ func c03RunHist(h *c03HistIn) (obs c03HistObs) {
 var c03Methods = []string{"GET", "GET", "POST", "POST", "PUT", "DELETE", "PATCH", "OPTIONS", "PROPFIND", "FOO"}
 
 var c03Segs = []string{"a", "b", "api", "v1", "x.y", "a%2Fb", "sp%20ace", "%41bc", "caf%C3%A9", "a+b", "users", "42",
-	"semi;colon", "", ".", "..", "eq=ual", "am&p", "at@", "co:lon", "%7Euser", "~user", "a%2fb", "%E4%B8%AD", "a%2Bb", "x%3Dy"}
+	"semi;colon", "", ".", "..", "eq=ual", "am&p", "at@", "co:lon", "%7Euser", "~user", "a%2fb", "%E4%B8%AD", "a%2Bb", "x%3Dy",
+	"a!b", "(x)", "a%2Fb%20c", "%21bang", "it's", "a*b", "%28p%29"}
 
 // segments whose decoded form contains a URL delimiter
 var c03Delims = []string{"q%3Fr", "p%25q", "a%23frag", "p%25", "%3F", "a%23", "100%25", "p%2541"}
@@ -860,6 +953,9 @@ func c03Gen(r *vfRand, adv bool) (in c03In) {
 		in.Weight = r.PickInt(1, 5, 100)
 	}
 	in.Twice = r.Chance(1, 3)
+	if r.Chance(1, 6) || adv { // the server is discovered through a service registry
+		in.Discover, in.KeepHost = true, false
+	}
 	in.MinLen = -1
 	if r.Chance(1, 2) || adv {
 		in.MinLen = r.PickInt(0, 1, 20, 100, 1000)
@@ -876,6 +972,9 @@ func c03Gen(r *vfRand, adv bool) (in c03In) {
 		default:
 			in.RA.Body, in.RA.Compress = "replaced and compressed", true
 		}
+	}
+	if !in.RA.On && (r.Chance(1, 6) || adv) { // a path rule that changes nothing: the client's escaping must survive
+		in.RA = c03Adapt{On: true, Path: r.PickStr("trim", "regexp")}
 	}
 	if r.Chance(1, 3) || (adv && r.Chance(1, 2)) {
 		in.RS.On = true
